@@ -186,6 +186,17 @@ def run(ctx):
         c = lw.Circuit(n)
         params = []          # (param, role) role in {"r","phi","loss"}
         pdict = PD()
+        if rng.random() < 0.4:
+            # a dictionary created from keyword arguments: Parameter objects are kept, plain numbers become Parameters
+            p0 = P(pick_unit(rng, 0.2), bounds=[0, 1] if rng.random() < 0.5 else None)
+            v1 = pick_phase(rng)
+            pdict = PD(first=p0, second=v1)
+            ctx.bucket("parameterdict_from_keywords")
+            if pdict["first"] is not p0 or not isinstance(pdict["second"], P) or pdict["second"].get() != v1:
+                ctx.violation("ParameterDict(first=<Parameter>, second=<number>) does not hold that Parameter object and a "
+                              "Parameter with that number", case={"history": [["ParameterDict(**kwargs)"]]},
+                              mechanism="parameterdict_view", monitor="driver: ParameterDict")
+            params.extend([(pdict["first"], str(rng.choice(["r", "loss"]))), (pdict["second"], "phi")])
         circuits = [c]
         frozen = []
         n_rejected = n_reads_after_update = 0
@@ -308,6 +319,17 @@ def run(ctx):
                     except Exception:  # noqa: BLE001
                         raise
                 elif step == "pdict":
+                    if len(pdict) and rng.random() < 0.3:
+                        kk = list(pdict.keys())[int(rng.integers(len(pdict)))]
+                        gone = pdict[kk]
+                        pdict.remove(kk)
+                        ctx.bucket("parameterdict_remove")
+                        if kk in list(pdict.keys()) or any(pdict[k2] is gone for k2 in pdict.keys()):
+                            ctx.violation("ParameterDict.remove left the key / the Parameter in the dictionary",
+                                          case={"history": trace}, mechanism="parameterdict_view",
+                                          monitor="driver: ParameterDict")
+                        trace.append(["pdict_remove", kk])      # the Parameter itself stays live wherever it was placed
+                        continue
                     if len(pdict) and rng.random() < 0.5:
                         kk = list(pdict.keys())[int(rng.integers(len(pdict)))]
                         pdict[kk] = P(0.3)           # must be rejected (cannot overwrite)
@@ -315,6 +337,18 @@ def run(ctx):
                         pdict["new%d" % len(trace)] = 0.5    # must be rejected (new key needs a Parameter)
                     trace.append(["pdict_bad"])
                 elif step == "read":
+                    # the dictionary is a view of the same Parameter objects: values and bounds as they are now
+                    keys = list(pdict.keys())
+                    ctx.count("parameterdict_view_checks")
+                    want_items = [(k2, pdict[k2].get()) for k2 in keys]
+                    want_bounds = {k2: (pdict[k2].min_bound if pdict[k2].min_bound is not None else -np.inf,
+                                        pdict[k2].max_bound if pdict[k2].max_bound is not None else np.inf) for k2 in keys}
+                    if (pdict.items() != want_items or list(pdict) != keys or pdict.params != keys or len(pdict) != len(keys)
+                            or pdict.get_bounds() != want_bounds
+                            or pdict.has_bounds() != any(pdict[k2].has_bounds() for k2 in keys)):
+                        ctx.violation(f"ParameterDict view disagrees with its Parameters: items {pdict.items()} vs {want_items}, "
+                                      f"bounds {pdict.get_bounds()} vs {want_bounds}", case={"history": trace},
+                                      mechanism="parameterdict_view", monitor="driver: ParameterDict")
                     for cc in circuits:
                         sh = circmon.shadow_of(cc)
                         invalid = []
